@@ -18,6 +18,7 @@ def run(ctx):
         for cfg, what in (("MCPool_modes.cfg", "2 txs, remote/local/strict, every evaluation order, stale evaluation head"),
                           ("MCPool_drops.cfg", "settled / dependent / expiring txs, 3 heads, lifetime and blocklist drops"),
                           ("MCPool_sameid.cfg", "one tx signed twice (same id, two hashes, two payers)"),
+                          ("MCPool_fork.cfg", "a legacy and a dynamic-fee tx across the GALACTICA fork (3 heads)"),
                           ("MCPool_thorough.cfg", "3 txs, 2 payers, <= 2 objects per tx")):
             ctx.tlc_must_hold("net", "MCPool", cfg=cfg, workers=8, timeout=3000, heap="8g", label=what)
 
@@ -29,10 +30,17 @@ def run(ctx):
     # 3. model -> implementation: behaviours of the repaired model, sampled by TLC, replayed step by step on a real pool
     #    (wash parked at its lock sites by the blocking tracer); quota, cost, flags, identities compared after every step
     nontrivial = set(pc.export_and_replay(ctx, 40 if q else 1500, label="sim"))
+    #    ... and on the chain where GALACTICA starts mid-way (dynamic-fee tx not admissible at first, priorities change with the
+    #    fork and are refreshed on the first GALACTICA head)
+    nontrivial |= set(pc.export_and_replay(ctx, 30 if q else 800, depth=27, label="sim-fork", cfg="MCPool_export_fork.cfg"))
 
     # 4. implementation -> model: seeded drivers on a real chain, all tx kinds and limits; gate-scheduled (deterministic
     #    interleavings at lock-site granularity) and free-running goroutines; every event re-derived by Trace_TxPool.tla
-    stats, accepted = pc.record_and_validate(ctx, 48 if q else 1600, "all", "both", "c18-mixed")
+    stats, accepted = pc.record_and_validate(ctx, 52 if q else 1690, "all", "both", "c18-mixed")
+    #    proved work that expires during the run (chain longer than MaxTxWorkDelay); the order oracle after the expiry is
+    #    reported under its own signature (oracle:order-stale-work)
+    sw, aw = pc.record_and_validate(ctx, 2 if q else 6, "work", "sched", "c18-work", seed_offset=3)
+    stats, accepted = stats + sw, accepted + aw
     if not q:
         s2, a2 = pc.record_and_validate(ctx, 400, "mixed,limits,unsynced,drain,basefee", "free", "c18-free", seed_offset=5)
         s3, a3 = pc.record_and_validate(ctx, 400, "limits,mixed,fork,drain,basefee", "sched", "c18-limits", seed_offset=9)
@@ -83,7 +91,8 @@ def run(ctx):
     ctx.cov["branch_counters"] = counts
     ctx.cov["free_runs_with_overlap"] = sum(1 for s in stats if s["mode"] == "free" and s["midWashOps"] > 0)
     required = ["displaced", "errortrim", "promote_miss", "add_dup", "fill_dup", "remove_miss", "idguard_refusals",
-                "sameid_copooled", "eval_window_removes", "packer_blocks", "packer_adopted", "packer_removes"]
+                "sameid_copooled", "eval_window_removes", "packer_blocks", "packer_adopted", "packer_removes", "sponsored_txs",
+                "reorgs", "work_expiries"]
     need_v = ["ok", "full", "nonexecfull", "notexec", "payer", "quota", "dquota", "rejected:expired", "rejected:inadmissible",
               "rejected:settled", "rejected:unpayable", "rejected:depreverted"]
     need_d = ["blocked", "depreverted", "expired", "inadmissible", "outlived", "settled", "unpayable", "unpayable-overall"]
@@ -110,6 +119,16 @@ def run(ctx):
         "(runs_discarded_slow): it is neither evidence nor a verdict",
         "free-running traces: the lock-free prefix of add (pool size, published list) is not linearised, those verdicts are accepted as reported",
         "exhaustive only inside the MCPool_*.cfg bounds; larger interleavings are sampled (seeded)",
+        "priorities: a published priority must be the one for the block the wash works towards (next block's base fee, proved "
+        "work only while it counts); the harness computes the expected value with the tx package's own accessors, per base fee. "
+        "The pinned code refreshes cached priorities only when the head's own base fee differs from its parent's: that is "
+        "reported under the signature order:stale-priority-after-head-change (witnessed by the order oracle in the work "
+        "scenario and by rejected eval events in the fork / basefee scenarios)",
+        "payers of txs to an account with a prototype credit plan (sponsor / the account / origin) are computed by the harness "
+        "from the head state in the order of runtime.BuyGas and logged per head; an object keeps the payer it was priced with",
+        "the housekeeping tick body is driven through the hook (VerifWash, a transcription); the real goroutine on its 1 s ticker "
+        "is compared with it in a separate step; the node's packer loop body (proposeAndCommit, cleanupTransactions) runs for real; "
+        "in free-running mode it excludes other operations while it commits (the new head is a logged fact)",
         "the evict step of wash removes by hash: a re-added object of the same tx can be evicted on its predecessor's verdict; the "
         "accounting stays exact and the tx-level reason holds for the wash's head, which is what DropHasReason states",
     ]
